@@ -117,6 +117,21 @@ def sensorUpdateCpp {m n : Nat} (k : Rat) (H : QMat m n) (P : QMat n n) (Q : QMa
              innovation := y, S := S, rejected := false }
   else none
 
+/-! ### the update as both filters compute it since the fix of F16 (Joseph-form covariance) -/
+
+/-- `sensor_model` as written today: as `sensorUpdate`, with `(I − K H) P (I − K H)ᵀ + K Q Kᵀ` for the covariance.
+`C09.sensorUpdateJ_eq` shows it returns exactly what `sensorUpdate` returns. This is the function the driver runs. -/
+def sensorUpdateJ {m n : Nat} (filtering : Option Rat) (H : QMat m n) (P : QMat n n) (Q : QMat m m)
+    (Sinv : QMat m m) (x : Fin n → Rat) (z hx : Fin m → Rat) : Option (UpdateOut n m) :=
+  let S := innovCov H P Q
+  if (S.mul Sinv).eqb QMat.one then
+    let y : Fin m → Rat := fun i => z i - hx i
+    if discard filtering (nis y Sinv) m then
+      some { state := x, cov := P, innovation := y, S := S, rejected := true }
+    else
+      some { state := updState H P Sinv x y, cov := updCovJoseph H P Q Sinv, innovation := y, S := S, rejected := false }
+  else none
+
 /-! ### covariance histories (C09) -/
 
 inductive CovOp (n : Nat) where
@@ -131,6 +146,14 @@ def covStep {n : Nat} (P : QMat n n) : CovOp n → Option (QMat n n)
 def covRun {n : Nat} (P : QMat n n) : List (CovOp n) → Option (QMat n n)
   | [] => some P
   | op :: rest => (covStep P op).bind fun P' => covRun P' rest
+
+/-- the covariance history as the filters run it: Joseph-form update with WHATEVER `Sinv` the filter computed — no certificate,
+so the run is total (`C09.invariantJ`: still a valid covariance after any history) -/
+def covStepJ {n : Nat} (P : QMat n n) : CovOp n → QMat n n
+  | .predict G V M => predictCov G V M P
+  | .update H Q Sinv rej => if rej then P else updCovJoseph H P Q Sinv
+
+def covRunJ {n : Nat} (P : QMat n n) (ops : List (CovOp n)) : QMat n n := ops.foldl covStepJ P
 
 /-! ### layout: un-flattening the Jacobian programs -/
 
